@@ -34,6 +34,20 @@ def judge(st, px_s, py_s, PX, PY, x, y, tag):
         st.violation(f'raises/{tag}', f'Unification({px_s!r},{py_s!r})({x}, {y}) raised {e!r}', px=px_s, py=py_s, x=str(x), y=str(y))
         return
     st.observe(px_s, py_s, str(x), str(y), got)
+    if st.c['cases'] % 8 == 1:
+        # the patterns may be handed over as text or as parsed categories (Union[str, Category]): the same question, the same answer
+        for fx, fy, form in ((PX, PY, 'category,category'), (px_s, PY, 'text,category'), (PX, py_s, 'category,text')):
+            st.count('call_forms')
+            try:
+                u2 = Unification(fx, fy)
+                g2 = bool(u2(x, y))
+                b2 = {v: (K.key(u2[v]) if g2 else None) for v in (sorted(set(ex) | set(ey)) if g2 and verdict != 'no' else [])}
+                b1 = {v: K.key(uni[v]) for v in b2}
+            except Exception as e:
+                st.violation(f'call_form/{tag}', f'patterns given as {form}: raised {e!r} (as text,text the answer is {got})', px=px_s, py=py_s, x=str(x), y=str(y), form=form)
+                continue
+            if g2 != got or b1 != b2:
+                st.violation(f'call_form/{tag}', f'patterns given as {form}: answer {g2}, as text,text: {got} (or different bindings)', px=px_s, py=py_s, x=str(x), y=str(y), form=form)
     if verdict == 'unspec':
         st.count('unspecified')
     elif got != (verdict == 'yes'):
